@@ -1096,6 +1096,21 @@ def c12_histories(groups, tier):
     except subprocess.TimeoutExpired:
         out = ""
         findings.append(_F("H", "history run did not finish"))
+    # the same requests in a process whose very first operation used f32 coordinates: the answers must be the
+    # same (state initialised once per process from the first call, seed C12-9)
+    try:
+        with open(fin) as i_:
+            p2 = subprocess.run([runner.harness_bin(False), "hist", "1", "0", "f32first"], stdin=i_,
+                                stdout=subprocess.PIPE, stderr=subprocess.PIPE, text=True, timeout=1800)
+        d1 = dict(l.split()[1:3] for l in out.splitlines() if l.startswith("HISTBASE "))
+        d2 = dict(l.split()[1:3] for l in p2.stdout.splitlines() if l.startswith("HISTBASE "))
+        diff = sorted((int(k) for k in d1 if k in d2 and d1[k] != d2[k]))
+        if not d2 or len(d1) != len(d2):
+            findings.append(_F("H", "the f32-first history run produced %d answers, the plain one %d" % (len(d2), len(d1))))
+        elif diff:
+            findings.append(_F("O", "history: HISTDIFF request#%d gives a different answer in a process whose first operation used f32 coordinates (%d requests differ)" % (diff[0], len(diff))))
+    except subprocess.TimeoutExpired:
+        findings.append(_F("H", "f32-first history run did not finish"))
     os.remove(fin)
     info = {}
     m = re.search(r"HISTRES requests=(\d+) executions=(\d+) mismatches=(\d+) threads=(\d+) operands_modified=(\d+)", out)
@@ -1188,12 +1203,14 @@ def _dev_stack_jobs(rows):
     if not ok:
         out.append(_F("H", "the unoptimised harness does not build: %s" % log[-300:]))
         return out
-    for name, n in (("x-holes", 40000), ("x-union", 40000), ("mono-drop", 300000), ("rev-remove", 300000)):
+    # (x-nest: nesting 300 levels deep, where narrow counters overflow; overflow checks are on in this build)
+    for name, n in (("x-holes", 40000), ("x-union", 40000), ("mono-drop", 300000), ("rev-remove", 300000), ("x-nest", 300)):
         args = [runner.harness_bin_dev(), "stack", name, str(n), "thread"]      # 2 MiB stack
         rc, o, err = _child(args, 900)
         rows.append({"scenario": name + " (unoptimised build)", "n": n, "thread_2MiB": True, "exit": rc, "drop_depth_span_bytes": None})
         if rc != 0 or "DONE" not in o:
-            f = _F("O", "stack: scenario %s n=%d on a 2 MiB thread in an unoptimised build ended with exit status %s (%s)" % (name, n, rc, err.strip()[-120:]),
+            msg = [l for l in o.splitlines() if l.startswith("LARGE-CHECK")]
+            f = _F("O", "stack: scenario %s n=%d on a 2 MiB thread in an unoptimised build ended with exit status %s (%s)" % (name, n, rc, msg[0] if msg else err.strip()[-160:]),
                    scenario=["dev-build", "stack", name, str(n), "thread"])
             out.append(f)
     return out
